@@ -15,6 +15,7 @@ from typing import Dict, Optional, Set
 from .. import astutil as A
 from .. import flow as F
 from .. import guards as G
+from .. import roles
 from ..model import AnalysisError, dotted, src
 from .c12 import parents
 
@@ -41,6 +42,11 @@ def run(ctx):
     repo = ctx.repo
     hub = repo.get_class(HUB, "_SocketHub")
     m = hub.module
+    # locals of send / recv named by role (nqsa/roles.py)
+    if hub.methods.get("send") is not None:
+        roles.normalise(ctx, hub.methods["send"], ["$recv_callback=self._recv_callbacks.get(socket.remote_key)", "$method=$recv_callback()"], "_SocketHub.send")
+    if hub.methods.get("recv") is not None:
+        roles.normalise(ctx, hub.methods["recv"], ["$messages=self._messages[socket.key]", "$msg=$messages.pop(0)", "$t_start=timer()"], "_SocketHub.recv")
     # ---- C18.Q
     uses = 0
     for name, fn in sorted(hub.methods.items()):
